@@ -22,7 +22,7 @@ install_demo() {
 }
 run_demo() {
   if [ "$kind" = integ ]; then
-    timeout 1200 cargo test -p axmosdb --offline --test "$(basename $demo .rs)" -- --test-threads=1 2>&1 | grep -E "^test |test result" 
+    timeout 1200 cargo test -p axmosdb --offline ${FEATURES:+--features $FEATURES} --test "$(basename $demo .rs)" -- --test-threads=1 2>&1 | grep -E "^test |test result" 
   else
     timeout 1200 cargo test -p axmosdb --lib --offline "$1" -- --test-threads=1 2>&1 | grep -E "^test |test result"
   fi
